@@ -23,6 +23,9 @@ structure ExtField where
   name : String
   ty : TN
   args : List ExtArg
+  /-- the resolver a schema directive of the extension document gives the new field (`extend_schema(…, schema_directives=…)`,
+      `extend type Query { b: String @wrap }`); `none`: the field is built without one -/
+  res : Option Nat := none
   deriving Repr, Inhabited
 
 structure Ext where
@@ -99,7 +102,7 @@ def buildFields (N : List (String × Addr)) : Heap → List ExtField → Heap ×
   | h, f :: fs =>
     let ra := buildArgs N h f.args
     let r := ra.1.alloc (.field { name := f.name, ty := tnRef N f.ty, args := ra.2, desc := none, depr := none,
-                                  res := none, sub := none, py := f.name })
+                                  res := f.res, sub := none, py := f.name })
     let rs := buildFields N r.1 fs
     (rs.1, r.2 :: rs.2)
 
@@ -131,7 +134,8 @@ def rebuiltType (cfg : Cfg) (ext : Ext) (N : List (String × Addr)) (t : TypeO) 
              | .union => if cfg.extUnionRtype then t.rtype else none
              | _ => t.rtype
     dres := if t.kind == Kind.object && !cfg.extObjDres then none else t.dres
-    values := t.values ++ (assocD ext.values t.name).map fun v => v ++ "|None|None" }
+    values := t.values ++ (assocD ext.values t.name).map fun v => v ++ "|None|None"
+    cls := if (t.kind == Kind.scalar || t.kind == Kind.enum) && cfg.extLeafCopied then t.cls else none }
 
 /-- the rebuilt object is written at the placeholder `na` of its name -/
 def extendOne (cfg : Cfg) (ext : Ext) (N Nin : List (String × Addr)) (h : Heap) (t : TypeO) (na : Addr) : Heap :=
